@@ -138,6 +138,14 @@ func (p *Prog) Pkg(rel string) *packages.Package { return p.Pkgs[pkgPath(rel)] }
 // Fn resolves an anchor (module-relative package, receiver type name or "", function name).
 // It returns nil when the anchor no longer resolves.
 func (p *Prog) Fn(rel, recv, name string) *ssa.Function {
+	f := p.fn0(rel, recv, name)
+	if f != nil && InlinedAway[funcKeyOf(f)] {
+		return nil // a helper whose signature is not the inventory's: its calls were inlined, it is no anchor any more
+	}
+	return f
+}
+
+func (p *Prog) fn0(rel, recv, name string) *ssa.Function {
 	sp := p.SPkgs[pkgPath(rel)]
 	if sp == nil {
 		return nil
@@ -272,9 +280,32 @@ func funcKeyOf(fn *ssa.Function) string {
 func Family(fn *ssa.Function) []*ssa.Function {
 	out := []*ssa.Function{fn}
 	for _, a := range fn.AnonFuncs {
+		if !anonLive(fn, a) {
+			continue // never called, stored or passed on (e.g. what is left of a local closure whose calls were inlined): dead code
+		}
 		out = append(out, Family(a)...)
 	}
 	return out
+}
+
+// anonLive: some instruction of the parent uses the literal (or a closure made from it).
+func anonLive(parent, a *ssa.Function) bool {
+	for _, b := range parent.Blocks {
+		for _, in := range b.Instrs {
+			if mc, ok := in.(*ssa.MakeClosure); ok && mc.Fn == ssa.Value(a) {
+				if rs := mc.Referrers(); rs != nil && len(*rs) > 0 {
+					return true
+				}
+				continue
+			}
+			for _, op := range in.Operands(nil) {
+				if op != nil && *op == ssa.Value(a) {
+					return true
+				}
+			}
+		}
+	}
+	return false
 }
 
 // FnName is a stable, position-free name for a function ("pkg.(*T).M", literals as parent$n).
